@@ -1,10 +1,11 @@
 """Kernels K1 (Position), K2 (lexers), K3 (parse_internal skeleton) from
 include/chaiscript/language/chaiscript_parser.hpp, for properties C01, C20 (and the
 lexer-shape part of C16)."""
+import os
 import re
 
 from common import (KernelBuild, Target, Rules, ExtractionBreak, base_rules, load_contracts, throw_rule,
-                    chai2c)
+                    chai2c, VERIF)
 
 HDR = "include/chaiscript/language/chaiscript_parser.hpp"
 
@@ -22,6 +23,11 @@ KERNEL_HEADER = r'''
 /* same predicate for loop invariants / assertions (no side effect needed there) */
 #define VALIDI(p) (__CPROVER_same_object((p)->m_pos, g_buf) && (p)->m_end == g_buf + g_len && OFF(p) <= g_len)
 #define BUFREQ (g_len <= MAXLEN && __CPROVER_is_fresh(g_buf, g_len))
+#define POFF OFF(&self->m_position)
+#define PVALID VALID(&self->m_position)
+#define PVALIDI VALIDI(&self->m_position)
+#define PREQ (__CPROVER_is_fresh(self, sizeof(*self)) && BUFREQ && PVALID)
+#define SSREQ(s) (__CPROVER_is_fresh(s, sizeof(*(s))) && (s)->m_size <= MAXLEN && __CPROVER_is_fresh((s)->data, (s)->m_size + 1))
 const char *g_buf;
 size_t g_len;
 int verif_thrown;
@@ -102,8 +108,8 @@ def emit_position(hdr, kb, contracts, prop):
         if sl.cb > psl.cb:
             raise ExtractionBreak("%s not inside struct Position" % cname)
         rules = position_rules()
-        fnc, loops = chai2c.contracts_for(contracts, cname, prop)
-        kb.emit_function(csig, sl, rules, fnc, loops, cname, post=ref_return if isref else None)
+        c = chai2c.contracts_for(contracts, cname, prop)
+        kb.emit_function(csig, sl, rules, c.fn, c.loops, cname, post=ref_return if isref else None, ghost=c.ghost)
         for rid in must:
             if kb.rules_fired.get(rid, 0) < 1:
                 raise ExtractionBreak("must-fire %s did not fire for %s" % (rid, cname))
@@ -135,11 +141,286 @@ def position_targets(kb):
         T.append(Target("Position_" + f, "h_Position_" + f))
 
 
+
+# ------------------------------------------------------------------ K2 lexers
+
+KINDMAP = {"eval_error": "K_eval_error"}
+
+SIBLINGS = ["Symbol_", "Char_", "Eol_", "Eol", "SkipComment", "SkipWS", "read_exponent_and_suffix", "char_in_alphabet",
+            "Keyword_", "Float_", "Hex_", "Binary_", "IntSuffix_", "Id_", "Quoted_String_", "Single_Quoted_String_"]
+POS_IDS = "m_position|tmp|start|exponent_pos"
+
+
+def lexer_rules(autos):
+    r = base_rules()
+    for i, (pat, repl) in enumerate(autos):
+        r.add("R8.auto%d:%s" % (i, repl.split("=")[0].strip()), pat, repl, min_fire=1)
+    # R4 default arguments of siblings (C has none)
+    r.add("R4.default.Eol_", r"(?<![\w.>])Eol_\(\)", "Eol_(false)")
+    r.add("R4.default.SkipWS", r"(?<![\w.>])SkipWS\(\)", "SkipWS(false)")
+    # R3 operator sugar on Position-typed identifiers
+    r.add("R3.peek", r"\*\((" + POS_IDS + r") \+ (\w+)\)", r"Position_peek(Position_plus(&\1, \2))")
+    r.add("R3.addr_deref", r"&\(\*(" + POS_IDS + r")\)", r"Position_deref(&\1)")
+    r.add("R3.deref", r"(?<![\w)\]])\*(" + POS_IDS + r")\b", r"(*Position_deref(&\1))")
+    r.add("R3.inc", r"\+\+(" + POS_IDS + r")\b", r"Position_inc(&\1)")
+    r.add("R3.dec", r"--(" + POS_IDS + r")\b", r"Position_dec(&\1)")
+    r.add("R3.pluseq", r"\b(" + POS_IDS + r") \+= ([^;]+);", r"Position_pluseq(&\1, \2);")
+    r.add("R3.minuseq", r"\b(" + POS_IDS + r") -= ([^;]+);", r"Position_minuseq(&\1, \2);")
+    r.add("R3.has_more", r"\b(" + POS_IDS + r")\.has_more\(\)", r"Position_has_more(&\1)")
+    r.add("R3.remaining", r"\b(" + POS_IDS + r")\.remaining\(\)", r"Position_remaining(&\1)")
+    r.add("R3.eq", r"\b(" + POS_IDS + r") == (" + POS_IDS + r")\b", r"Position_eq(&\1, &\2)")
+    r.add("R3.ne", r"\b(" + POS_IDS + r") != (" + POS_IDS + r")\b", r"Position_ne(&\1, &\2)")
+    # R4 sibling calls
+    r.add("R4.sib", r"(?<![\w.>])(" + "|".join(SIBLINGS) + r")\(", r"Parser_\1(self, ")
+    r.add("R4.sib0", r"\(self, \)", "(self)")
+    # R2 Static_String reference parameters
+    r.add("R2.ssarg", r"Parser_(Symbol_|Keyword_)\(self, (m_\w+)\)", r"Parser_\1(self, &\2)")
+    r.add("R2.ss", r"\b(sym|t_s)\.(size|c_str)\(\)", r"Static_String_\2(\1)")
+    # R7 scoped enumerators
+    r.add("R7.detail", r"\bdetail::(\w+)", r"detail_\1")
+    # R1 members
+    r.add("R1.member", r"(?<![\w.>])(m_position|m_current_parse_depth)\b", r"self->\1")
+    return r
+
+
+def raii_depth_counter(rettype):
+    """R9: `Depth_Counter dc{this};` + destructor call before every return (A2: C++ runs
+    the destructor on every exit; throw paths end in the encoding)."""
+
+    def f(body):
+        body, n = re.subn(r"\bDepth_Counter dc\{this\};", "Depth_Counter dc; Depth_Counter_ctor(&dc, self);", body)
+        if n != 1:
+            raise ExtractionBreak("R9.raii: Depth_Counter dc{this}; not found exactly once")
+        body, n = re.subn(r"\breturn\s+([^;]+);", r"{ %s verif_r = (\1); Depth_Counter_dtor(&dc); return verif_r; }" % rettype, body)
+        if n < 1:
+            raise ExtractionBreak("R9.raii: no return statement")
+        return body
+
+    return f
+
+
+A_POS = lambda v, const="": (r"\b%sauto %s = m_position;" % (const, v), "%sPosition %s = m_position;" % (const, v))
+
+# (cname, anchor, C signature, autos, raii rettype or None)
+LEXER_FUNCS = [
+    ("Parser_char_in_alphabet", "constexpr bool char_in_alphabet(char c, detail::Alphabet a) const noexcept",
+     "bool Parser_char_in_alphabet(const Parser *self, char c, int a)", [], None),
+    ("Parser_Symbol_", "inline auto Symbol_(const utility::Static_String &sym) noexcept",
+     "bool Parser_Symbol_(Parser *self, const Static_String *sym)",
+     [(r"\bconst auto len = sym\.size\(\);", "const size_t len = sym.size();")], None),
+    ("Parser_SkipComment", "bool SkipComment()", "bool Parser_SkipComment(Parser *self)", [], None),
+    ("Parser_SkipWS", "bool SkipWS(bool skip_cr = false)", "bool Parser_SkipWS(Parser *self, bool skip_cr)",
+     [(r"\bauto end_line = ", "bool end_line = ")], None),
+    ("Parser_read_exponent_and_suffix", "bool read_exponent_and_suffix() noexcept",
+     "bool Parser_read_exponent_and_suffix(Parser *self)", [A_POS("exponent_pos")], None),
+    ("Parser_Float_", "bool Float_() noexcept", "bool Parser_Float_(Parser *self)", [], None),
+    ("Parser_Hex_", "bool Hex_() noexcept", "bool Parser_Hex_(Parser *self)", [], None),
+    ("Parser_IntSuffix_", "void IntSuffix_()", "void Parser_IntSuffix_(Parser *self)", [], None),
+    ("Parser_Binary_", "bool Binary_()", "bool Parser_Binary_(Parser *self)", [], None),
+    ("Parser_Id_", "bool Id_()", "bool Parser_Id_(Parser *self)", [A_POS("start", "const ")], None),
+    ("Parser_Quoted_String_", "bool Quoted_String_()", "bool Parser_Quoted_String_(Parser *self)", [], None),
+    ("Parser_Single_Quoted_String_", "bool Single_Quoted_String_()", "bool Parser_Single_Quoted_String_(Parser *self)", [], None),
+    ("Parser_Char_", "bool Char_(const char c)", "bool Parser_Char_(Parser *self, const char c)", [], None),
+    ("Parser_Keyword_", "bool Keyword_(const utility::Static_String &t_s)",
+     "bool Parser_Keyword_(Parser *self, const Static_String *t_s)",
+     [(r"\bconst auto len = t_s\.size\(\);", "const size_t len = t_s.size();"), A_POS("tmp")], None),
+    ("Parser_Eol_", "bool Eol_(const bool t_eos = false)", "bool Parser_Eol_(Parser *self, const bool t_eos)", [], None),
+    ("Parser_Eol", "bool Eol()", "bool Parser_Eol(Parser *self)", [], "bool"),
+]
+
+
+def static_strings(hdr, kb):
+    """constexpr static utility::Static_String m_x{"..."}; -> C initializers (m_size =
+    N-1 as in Static_String's array-reference constructor)."""
+    out = []
+    names = []
+    for mm in re.finditer(r'constexpr static utility::Static_String (m_\w+)\{("(?:[^"\\]|\\.)*")\};', hdr.text):
+        name, lit = mm.group(1), mm.group(2)
+        out.append("static const Static_String %s = {sizeof(%s) - 1, %s};" % (name, lit, lit))
+        names.append(name)
+    need = {"m_multiline_comment_end", "m_multiline_comment_begin", "m_singleline_comment", "m_annotation", "m_cr_lf"}
+    if not need <= set(names):
+        raise ExtractionBreak("Static_String constants changed: %r" % names)
+    return "\n".join(out) + "\n"
+
+
+def alphabet_enum(hdr, kb):
+    sl = hdr.slice_block("enum Alphabet")
+    names = re.findall(r"^\s*(\w+)\s*(=\s*\d+)?\s*,?\s*$", sl.body, re.M)
+    body = re.sub(r"^(\s*)(\w+)", r"\1detail_\2", sl.body, flags=re.M)
+    kb.slices.append(("enum Alphabet", sl.where(), sl.sha))
+    if "detail_max_alphabet" not in body or "detail_white_alphabet" not in body:
+        raise ExtractionBreak("enum Alphabet not understood")
+    return "enum detail_Alphabet {" + body + "};\n"
+
+
+def parse_depth(hdr):
+    mm = re.search(r"template<typename Tracer, typename Optimizer, std::size_t Parse_Depth = (\d+)>\s*class ChaiScript_Parser", hdr.text)
+    if not mm:
+        raise ExtractionBreak("Parse_Depth default not found")
+    return int(mm.group(1))
+
+
+def emit_static_string(kb, contracts, prop):
+    hdr = chai2c.Header("include/chaiscript/utility/static_string.hpp")
+    kb.add("typedef struct Static_String { size_t m_size; const char *data; } Static_String;")
+    fields = re.findall(r"^\s*const (size_t) (m_size);\s*$|^\s*(const char \*)(data) = nullptr;\s*$", hdr.text, re.M)
+    if len(fields) != 2:
+        raise ExtractionBreak("Static_String fields changed")
+    for cname, anchor, csig in [
+        ("Static_String_size", "constexpr size_t size() const noexcept", "size_t Static_String_size(const Static_String *self)"),
+        ("Static_String_c_str", "constexpr const char *c_str() const noexcept", "const char *Static_String_c_str(const Static_String *self)"),
+    ]:
+        sl = hdr.slice_function(anchor)
+        r = base_rules()
+        r.add("R1.field", r"(?<![\w.>])(m_size|data)\b", r"self->\1", min_fire=1)
+        c = chai2c.contracts_for(contracts, cname, prop)
+        kb.emit_function(csig, sl, r, c.fn, c.loops, cname)
+
+
+def emit_depth_counter(hdr, kb, contracts, prop):
+    kb.add("typedef struct Depth_Counter { Parser *parser; } Depth_Counter;")
+    kb.add("static const size_t max_depth = %d; /* template default Parse_Depth */" % parse_depth(hdr))
+    thr = throw_rule(KINDMAP, HDR)
+    dsl = hdr.slice_block("struct Depth_Counter")
+    # constructor
+    sl = hdr.slice_function("Depth_Counter(ChaiScript_Parser *t_parser)", after=dsl.ob)
+    if not re.fullmatch(r"Depth_Counter\(ChaiScript_Parser \*t_parser\)\s*:\s*parser\(t_parser\)\s*", sl.sig_tail):
+        raise ExtractionBreak("Depth_Counter constructor initializer list changed: %r" % sl.sig_tail)
+    r = base_rules()
+    r.add("R1.field", r"(?<![\w.>])parser->", "self->parser->", min_fire=2)
+    c = chai2c.contracts_for(contracts, "Depth_Counter_ctor", prop)
+
+    def pre(body):
+        b, n = thr(body, "Depth_Counter_ctor")
+        if n != 1:
+            raise ExtractionBreak("Depth_Counter ctor: expected one throw")
+        return "self->parser = t_parser; /* R9 ctor-initializer */" + b
+
+    kb.emit_function("void Depth_Counter_ctor(Depth_Counter *self, Parser *t_parser)", sl, r, c.fn, c.loops,
+                     "Depth_Counter_ctor", pre=pre)
+    sl = hdr.slice_function("~Depth_Counter() noexcept", after=dsl.ob)
+    r = base_rules()
+    r.add("R1.field", r"(?<![\w.>])parser->", "self->parser->", min_fire=1)
+    c = chai2c.contracts_for(contracts, "Depth_Counter_dtor", prop)
+    kb.emit_function("void Depth_Counter_dtor(Depth_Counter *self)", sl, r, c.fn, c.loops, "Depth_Counter_dtor")
+
+
+def emit_lexers(hdr, kb, contracts, prop):
+    thr = throw_rule(KINDMAP, HDR)
+    for cname, anchor, csig, autos, raii in LEXER_FUNCS:
+        kb.add(csig + ";")
+    for cname, anchor, csig, autos, raii in LEXER_FUNCS:
+        sl = hdr.slice_function(anchor)
+        rules = lexer_rules(autos)
+        c = chai2c.contracts_for(contracts, cname, prop)
+
+        def pre(body, cname=cname, raii=raii):
+            b, n = thr(body, cname)
+            if raii:
+                b = raii_depth_counter(raii)(b)
+            return b
+
+        kb.emit_function(csig, sl, rules, c.fn, c.loops, cname, pre=pre, ghost=c.ghost)
+
+
+# which callees are replaced by their contracts when a function is enforced (others are
+# tiny loop-free accessors that are proved on their own and inlined at call sites).
+REPLACED = {"Position_inc", "Position_dec", "Position_plus", "Position_pluseq", "Position_minus", "Position_minuseq",
+            "Parser_Symbol_", "Parser_Char_", "Parser_Eol_", "Parser_Eol", "Parser_SkipComment", "Parser_SkipWS",
+            "Parser_read_exponent_and_suffix", "Parser_Keyword_"}
+
+
+def callees_of(text, fname, universe):
+    """names from `universe` called in the emitted definition of fname."""
+    mm = None
+    for cand in re.finditer(r"^[A-Za-z][^\n;{}]*\b%s\(" % re.escape(fname), text, re.M):
+        nxt = re.search(r"[;{]", chai2c._mask(text[cand.end():]))
+        if nxt and nxt.group(0) == "{":
+            mm = cand
+            end = cand.end() + nxt.end()
+            break
+    if not mm:
+        raise ExtractionBreak("definition of %s not found in generated C" % fname)
+    ob = end - 1
+    cb = chai2c.match_brace(chai2c._mask(text), ob)
+    body = text[ob:cb]
+    return sorted(u for u in universe if u != fname and re.search(r"\b%s\(" % re.escape(u), body))
+
+
+def lexer_targets(kb):
+    text = kb.text()
+    for cname, anchor, csig, autos, raii in LEXER_FUNCS:
+        params = csig[csig.index("(") + 1:csig.rindex(")")]
+        decls, args = [], []
+        for p in params.split(","):
+            p = p.strip()
+            name = re.findall(r"\w+", p)[-1]
+            decls.append(re.sub(r"\bconst\b\s*(?=\w+\s+\w+$)", "", p) + ";")
+            args.append(name)
+        kb.add("void h_%s(void) { %s %s(%s); VERIF_CANARY(\"%s returns normally\"); }"
+               % (cname, " ".join(decls), cname, ", ".join(args), cname))
+        # transitive closure through inlined (non-replaced) callees
+        rep = set()
+        seen = set()
+        stack = [cname]
+        allfn = set(REPLACED) | {f[0] for f in LEXER_FUNCS} | {f[0] for f in POSITION_FUNCS} | {"Depth_Counter_ctor", "Depth_Counter_dtor", "Position_peek"}
+        while stack:
+            f = stack.pop()
+            if f in seen:
+                continue
+            seen.add(f)
+            for g in callees_of(text, f, allfn):
+                if g in REPLACED:
+                    rep.add(g)
+                else:
+                    stack.append(g)
+        t = Target(cname, "h_" + cname, replace=sorted(rep))
+        t.expect_loops = kb.nloops.get(cname, 0) > 0
+        kb.targets.append(t)
+    for cname in ("Static_String_size", "Static_String_c_str"):
+        kb.add("void h_%s(void) { Static_String *s; %s(s); VERIF_CANARY(\"returns\"); }" % (cname, cname))
+        kb.targets.append(Target(cname, "h_" + cname))
+    kb.add("void h_Depth_Counter_ctor(void) { Depth_Counter *d; Parser *p; Depth_Counter_ctor(d, p); VERIF_CANARY(\"returns\"); }")
+    kb.targets.append(Target("Depth_Counter_ctor", "h_Depth_Counter_ctor"))
+    kb.add("void h_Depth_Counter_dtor(void) { Depth_Counter *d; Depth_Counter_dtor(d); VERIF_CANARY(\"returns\"); }")
+    kb.targets.append(Target("Depth_Counter_dtor", "h_Depth_Counter_dtor"))
+
+
+def parser_data(kb):
+    import native
+    exe = native.build("gen_parser_data", os.path.join(VERIF, "native", "gen_parser_data.cpp"))
+    rc, out, err = native.run(exe)
+    if rc != 0:
+        raise ExtractionBreak("gen_parser_data failed")
+    kb.native_data.append("m_alphabet[12][256]: printed by native/gen_parser_data.cpp from ChaiScript_Parser::m_alphabet "
+                          "(constexpr build_alphabet()) compiled against /repo/include")
+    return out.decode()
+
+
 def build(prop, tier="quick"):
     kb = KernelBuild("parser", prop)
+    kb.defines.append("VERIF_ALLOWED=KBIT(K_eval_error)")
     hdr = chai2c.Header(HDR)
     kb.add(KERNEL_HEADER)
-    contracts = load_contracts("K1_position.contracts")
-    emit_position(hdr, kb, contracts, prop)
+    c1 = load_contracts("K1_position.contracts")
+    c2 = load_contracts("K2_lexers.contracts")
+    emit_position(hdr, kb, c1, prop)
+    kb.add("/* R3 helper: dereference of a temporary cursor (`*(m_position + 1)`) */\n"
+           "static inline char Position_peek(Position p) { return *Position_deref(&p); }")
+    kb.add("typedef struct Parser { Position m_position; size_t m_current_parse_depth; } Parser;")
+    kb.add(alphabet_enum(hdr, kb))
+    kb.add(parser_data(kb))
+    emit_static_string(kb, c2, prop)
+    kb.add(static_strings(hdr, kb))
+    emit_depth_counter(hdr, kb, c2, prop)
+    emit_lexers(hdr, kb, c2, prop)
     position_targets(kb)
+    lexer_targets(kb)
+    kb.assumptions += [
+        "A4: input buffers are shorter than 2^31-2 bytes (line/col int arithmetic is not overflow-checked)",
+        "A5: std::tolower behaves as in the C locale (ASCII case fold)",
+        "A2: C++ runs the destructor of Depth_Counter on every exit from the enclosing function",
+        "throw encoding: a throw ends the path after its kind is checked against the allowed set (DESIGN 3.1)",
+    ]
     return kb
